@@ -240,8 +240,12 @@ pub proof fn lemma_metadata_steps_%(static)s()
 ''' % dict(owner=owner, static=static, have=', '.join(evo_terms(steps)), want=', '.join(evo_terms(want)))
 
 
+STATICS = {}
+
+
 def gen_metadata(static, steps):
     """constant + Deref whose ensures is the ASSUMED contract of AdtMetadata::new on these steps"""
+    STATICS[static] = [list(x) for x in steps]
     n = len(steps)
     fg = 'Map::<Seq<char>, u8>::empty()'
     mo = 'Map::<Seq<char>, u8>::empty()'
@@ -430,6 +434,7 @@ fn deserialize(context: &mut DeserializationContext<'_>) -> (r: Result<Self>)%(t
 def generate(repo, build_dir, lib_unit_path, out_path):
     src = open(os.path.join(ROOT, 'catalogue', 'src', 'lib.rs')).read()
     decls = parse_decls(src)
+    STATICS.clear()
     expanded = expand(repo, build_dir)
     open(os.path.join(build_dir, 'catalogue_expanded.rs'), 'w').write(expanded)
     parts = []
@@ -483,7 +488,7 @@ def generate(repo, build_dir, lib_unit_path, out_path):
         for a in sorted(lits) for b in sorted(lits) if a < b and len(a) != len(b)) + '}\n'
     text = lib[:cut] + '\n// ======================================================================= CATALOGUE (tools/catgen.py)\n' + reveal + '\n' + '\n'.join(parts) + '\n' + lib[cut:]
     open(out_path, 'w').write(text)
-    return dict(entries=[n for n in decls if n not in [s.split(' ')[0] for s in skipped]], skipped=skipped)
+    return dict(entries=[n for n in decls if n not in [s.split(' ')[0] for s in skipped]], skipped=skipped, statics=dict(STATICS))
 
 
 def index(path):
